@@ -1,7 +1,7 @@
 (* EditProofsKF.v -- C11: the class predicates of the three open known findings (boolean, mirrored by the
    harness on the document before the call) and their witnesses: the faithful model shows the defect. *)
 From LV Require Import Base.Bytes Model.Obj Model.DocQ Model.PageTree Model.Traverse Model.Edit
-  Model.StreamFilt Spec.AbstractDoc Proofs.EditProofs Proofs.EditProofsEx.
+  Model.StreamFilt Spec.AbstractDoc Proofs.EditProofs Proofs.EditProofsEx Model.EditV0.
 
 (* streams without a filter decode to themselves; the witnesses use nothing else *)
 Definition decode0 (sd : dict) (c : bytes) : bytes := c.
@@ -51,10 +51,10 @@ Definition KnownClass_resources_shadow (d : doc) (page : oid) : bool :=
    sharing content stream 5) ---------- *)
 Definition K_Im1 := Eval cbv in bs "Im1".
 
-(* add_xobject on page 3, which only inherits: the inherited font is gone afterwards *)
-Theorem resources_shadow_witness :
+(* add_xobject on page 3, which only inherits, BEFORE the repair (Model/EditV0.v): the inherited font is gone afterwards *)
+Theorem resources_shadow_v0_witness :
   KnownClass_resources_shadow ex_doc (3, 0)%N = true /\
-  exists d', step O0 ex_doc (AddXObject (3, 0)%N K_Im1 (5, 0)%N) = (d', OOk) /\
+  exists d', add_xobject_v0 ex_doc (3, 0)%N K_Im1 (5, 0)%N = (d', OOk) /\
              effective_resources (d_objects ex_doc) (3, 0)%N = Some [(K_Font, K_F1, ORef 6 0)] /\
              effective_resources (d_objects d') (3, 0)%N = Some [(K_XObject, K_Im1, ORef 5 0)] /\
              ~ res_le (effective_resources (d_objects ex_doc) (3, 0)%N) (effective_resources (d_objects d') (3, 0)%N).
@@ -64,6 +64,13 @@ Proof.
   cbv [res_le]. intro H. destruct (H K_Font K_F1 (ORef 6 0) (or_introl eq_refl)) as [x' [E|[]]].
   inversion E.
 Qed.
+
+(* the repaired code on the same document: the page's own dictionary starts as a copy of the inherited one *)
+Theorem resources_shadow_repaired_example :
+  exists d', step O0 ex_doc (AddXObject (3, 0)%N K_Im1 (5, 0)%N) = (d', OOk) /\
+             effective_resources (d_objects d') (3, 0)%N = Some [(K_Font, K_F1, ORef 6 0); (K_XObject, K_Im1, ORef 5 0)] /\
+             effective_resources (d_objects d') (4, 0)%N = Some [(K_Font, K_F1, ORef 6 0)].
+Proof. eexists. repeat split; vm_compute; reflexivity. Qed.
 
 (* change_page_content on page 3 whose stream is also page 4's: page 4 changes too *)
 Theorem content_shared_witness :
